@@ -231,6 +231,24 @@ func (d *descer) desc(v ssa.Value, depth int) *Expr {
 	case *ssa.Lookup:
 		return &Expr{K: ELookup, V: v, X: d.desc(x.X, depth+1), Y: d.desc(x.Index, depth+1), CommaOk: x.CommaOk}
 	case *ssa.Slice:
+		if al, ok := x.X.(*ssa.Alloc); ok && (al.Comment == "varargs" || al.Comment == "slicelit") {
+			// slice literal / variadic pack: describe by its element stores
+			e := &Expr{K: EMake, V: v, Name: al.Comment}
+			if refs := al.Referrers(); refs != nil {
+				for _, r := range *refs {
+					ia, ok := r.(*ssa.IndexAddr)
+					if !ok || ia.Referrers() == nil {
+						continue
+					}
+					for _, rr := range *ia.Referrers() {
+						if st, ok := rr.(*ssa.Store); ok && st.Addr == ia {
+							e.Args = append(e.Args, d.desc(st.Val, depth+1))
+						}
+					}
+				}
+			}
+			return e
+		}
 		e := &Expr{K: ESlice, V: v, X: d.desc(x.X, depth+1)}
 		for _, b := range []ssa.Value{x.Low, x.High, x.Max} {
 			if b == nil {
@@ -421,6 +439,13 @@ func (e *Expr) String() string {
 	case EClosure:
 		return "closure:" + fnKey(e.SFn)
 	case EMake:
+		if len(e.Args) > 0 {
+			var as []string
+			for _, a := range e.Args {
+				as = append(as, a.String())
+			}
+			return "[" + strings.Join(as, ",") + "]"
+		}
 		return "make"
 	case ERange:
 		return "range"
@@ -690,4 +715,22 @@ func CmpMatch(e *Expr, lhs Pat, op token.Token, rhs Pat) (bool, bool) {
 		}
 	}
 	return false, false
+}
+
+// exprValues collects the SSA values mentioned anywhere in e.
+func exprValues(e *Expr, into map[ssa.Value]bool) {
+	if e == nil {
+		return
+	}
+	if e.V != nil {
+		if into[e.V] && e.K != EPhi {
+			// already walked
+		}
+		into[e.V] = true
+	}
+	exprValues(e.X, into)
+	exprValues(e.Y, into)
+	for _, a := range e.Args {
+		exprValues(a, into)
+	}
 }
